@@ -168,7 +168,10 @@ pub fn explore(run: &Run) -> (Stats, Vec<(u64, u64)>) {
         // haystacks over all four UTF-8 lengths (every adjacency), empty, both ends
         let hays: Vec<Hay> = if name == "lit" {
             crate::sweep::lit_hays().into_iter().filter(|h| h.cps.len() <= 20).collect()
-        } else if name == "icaseback" || name == "fail" {
+        } else if name == "icaseback" {
+            // every pair of fold partners, and the triples that start with an ASCII or a supplementary letter
+            enumerate::all_hays(&sp.alphabet, 3).into_iter().filter(|h| h.cps.len() <= 2 || h.cps[0] == 'k' as u32 || h.cps[0] == 0x10428).collect()
+        } else if name == "fail" {
             enumerate::all_hays(&sp.alphabet, sp.hay_quick)
         } else {
             let mut alphabet: Vec<u32> = vec!['a' as u32, 'é' as u32, '€' as u32, 0x1F600];
@@ -180,6 +183,8 @@ pub fn explore(run: &Run) -> (Stats, Vec<(u64, u64)>) {
             enumerate::all_hays(&alphabet, if thorough { 3 } else { 2 }).into_iter().chain(enumerate::all_hays(&['a' as u32, 0x1F600, 'é' as u32], 3).into_iter().filter(|h| h.cps.len() == 3)).collect()
         };
         let by = enumerate::enumerate(&sp.profile, size);
+        let t_prof = std::time::Instant::now();
+        let before = total.st.get("evaluations");
         for list in &by {
             let a = list
                 .par_iter()
@@ -192,12 +197,21 @@ pub fn explore(run: &Run) -> (Stats, Vec<(u64, u64)>) {
                 .reduce(Acc::default, Acc::merge);
             total = total.merge(a);
         }
+        if std::env::var("VERIF_VERBOSE").is_ok() {
+            eprintln!("  C06 {} size<={} cases={} ({:.1}s)", name, size, total.st.get("evaluations") - before, t_prof.elapsed().as_secs_f64());
+        }
     }
     // classes on the encoding-length boundaries (a class lowered to bytes must not match inside a character),
     // as an atom, captured inside a lookbehind, and after a character inside a lookbehind
     {
         let (classes, _) = crate::c12::boundary_classes();
-        let hays: Vec<Hay> = enumerate::all_hays(&[0x61, 0x7F, 0x80, 0xC2, 0x7FF, 0x800, 0x4E00, 0xFFFF, 0x10000, 0x10FFFF], 2);
+        let uni = [0x61u32, 0x7F, 0x80, 0xC2, 0x7FF, 0x800, 0x4E00, 0xFFFF, 0x10000, 0x10FFFF];
+        let mut hays: Vec<Hay> = enumerate::all_hays(&uni, 1);
+        for &c in &uni {
+            hays.push(Hay::new(vec![c, 0x61]));
+            hays.push(Hay::new(vec![0x80, c]));
+            hays.push(Hay::new(vec![0x4E00, c]));
+        }
         let jobs: Vec<Node> = classes
             .iter()
             .flat_map(|c| {
